@@ -43,6 +43,13 @@ fn make_content(ctx: &Ctx, rng: &mut Rng) -> Vec<u8> {
             text.push_str("end.\n");
         }
     }
+    // a head comment with multi-byte characters at a varying small offset (fixed-size previews,
+    // chunked reads and buffer boundaries meet characters in the middle)
+    if rng.chance(1, 5) {
+        let pad = "x".repeat(rng.range(0, 70));
+        let tail = *rng.pick(&["ünï", "漢字", "😀😀", "é", "Ж"]);
+        text = format!("// {pad}{tail}{tail}{tail}\n{text}");
+    }
     // ugly trailing whitespace so that most files change
     text.push_str("   \n\n\n");
     match rng.below(10) {
